@@ -236,3 +236,32 @@ Proof.
       split; [exact Ef|]. subst s'. apply app_inv_head in E. exact E. }
     destruct Es as [-> ->]. apply IH. exact Hl'.
 Qed.
+
+(* what follows an ASCII byte in a valid string does not start with a continuation byte *)
+Lemma seqs_after_ascii l : seqs l -> forall a c b, l = a ++ c :: b -> c < 128 -> seqs b.
+Proof.
+  induction 1 as [|s l Hwf Hsh Hl IH]; intros a c b E Hc.
+  - destruct a; discriminate.
+  - pose proof (wf_seq_bytes s Hwf) as Hs. destruct s as [|b0 t]; [contradiction|]. destruct Hs as [H0 Ht].
+    destruct a as [|a0 a'].
+    + cbn [app] in E. inversion E as [[E0 E1]]. subst b0.
+      (* an ASCII first byte is a whole sequence *)
+      destruct Hsh as [(x & Ex & _)|[Hlen Hall]].
+      * assert (Et : t = []) by (inversion Ex; reflexivity). subst b. rewrite Et. exact Hl.
+      * inversion Hall; subst. lia.
+    + cbn [app] in E. inversion E as [[E0 E1]]. subst a0.
+      assert (Hcase : (exists a'', a' = t ++ a'' /\ l = a'' ++ c :: b) \/ In c t).
+      { clear -E1. revert a' E1. induction t as [|x t IHt]; intros a' E1; cbn [app] in *.
+        - left. exists a'. auto.
+        - destruct a' as [|y a'']; cbn [app] in E1.
+          + inversion E1; subst. right. left. reflexivity.
+          + inversion E1 as [[Ex Er]]. subst y. destruct (IHt a'' Er) as [(a3 & -> & El)|Hin].
+            * left. exists a3. auto.
+            * right. right. exact Hin. }
+      destruct Hcase as [(a'' & _ & El)|Hin].
+      * exact (IH a'' c b El Hc).
+      * rewrite Forall_forall in Ht. specialize (Ht c Hin). unfold is_cont, in_range in Ht. lia.
+Qed.
+
+Theorem utf8_valid_after_ascii a c b : utf8_valid (a ++ c :: b) = true -> c < 128 -> utf8_valid b = true.
+Proof. intros H Hc. apply valid_iff_seqs. eapply seqs_after_ascii; [apply valid_iff_seqs; exact H|reflexivity|exact Hc]. Qed.
